@@ -28,6 +28,10 @@ sexp sexp_ratio_div (sexp ctx, sexp a, sexp b);
 sexp sexp_ratio_compare (sexp ctx, sexp a, sexp b);
 sexp sexp_ratio_normalize (sexp ctx, sexp rat, sexp in);
 sexp sexp_make_ratio (sexp ctx, sexp num, sexp den);
+sexp sexp_ratio_round (sexp ctx, sexp a);
+sexp sexp_ratio_trunc (sexp ctx, sexp a);
+sexp sexp_ratio_floor (sexp ctx, sexp a);
+sexp sexp_ratio_ceiling (sexp ctx, sexp a);
 
 static sexp ctx;
 
@@ -101,14 +105,14 @@ int main(int argc, char **argv) {
   setvbuf(stdout, NULL, _IOLBF, 0);   /* a request that hangs must not hide the answers before it */
   sexp_scheme_init();
   ctx = sexp_make_eval_context(NULL, NULL, NULL, 0, 0);
-  sexp vmadd, vmsub, vmquo, vmrem;
+  sexp vmadd, vmsub, vmquo, vmrem, vmmul;
   sexp_gc_var6(a, b, r, procs, ra, rb);
   sexp_gc_preserve6(ctx, a, b, r, procs, ra, rb);
   sexp_load_standard_env(ctx, NULL, SEXP_SEVEN);
-  procs = sexp_eval_string(ctx, "(vector (lambda (a b) (+ a b)) (lambda (a b) (- a b)) (lambda (a b) (quotient a b)) (lambda (a b) (remainder a b)))", -1, NULL);
+  procs = sexp_eval_string(ctx, "(vector (lambda (a b) (+ a b)) (lambda (a b) (- a b)) (lambda (a b) (quotient a b)) (lambda (a b) (remainder a b)) (lambda (a b) (* a b)))", -1, NULL);
   if (!sexp_vectorp(procs)) { fprintf(stderr, "cannot compile vm probes\n"); sexp_print_exception(ctx, procs, sexp_current_error_port(ctx)); return 3; }
   vmadd = sexp_vector_ref(procs, SEXP_ZERO); vmsub = sexp_vector_ref(procs, SEXP_ONE);
-  vmquo = sexp_vector_ref(procs, SEXP_TWO); vmrem = sexp_vector_ref(procs, SEXP_THREE);
+  vmquo = sexp_vector_ref(procs, SEXP_TWO); vmrem = sexp_vector_ref(procs, SEXP_THREE); vmmul = sexp_vector_ref(procs, SEXP_FOUR);
   if (!sexp_procedurep(vmadd) || !sexp_procedurep(vmsub)) { fprintf(stderr, "cannot compile vm probes\n"); return 3; }
   while (fgets(line, sizeof line, stdin)) {
     char *f[8]; int nf = 0; char *tok = strtok(line, " \n");
@@ -167,11 +171,11 @@ int main(int argc, char **argv) {
       a = mknum(ctx, f[1]); b = mknum(ctx, f[2]);
       r = f[0][4] == 'a' ? sexp_add(ctx, a, b) : f[0][4] == 's' ? sexp_sub(ctx, a, b) : sexp_mul(ctx, a, b);
       prnum(r);
-    } else if ((!strcmp(f[0], "vm_add") || !strcmp(f[0], "vm_sub")) && nf == 3) {
+    } else if ((!strcmp(f[0], "vm_add") || !strcmp(f[0], "vm_sub") || !strcmp(f[0], "vm_mul")) && nf == 3) {
       /* through the VM opcode: a compiled (lambda (a b) (+ a b)) applied to the two numbers */
       a = mknum(ctx, f[1]); b = mknum(ctx, f[2]);
       r = sexp_list2(ctx, a, b);
-      r = sexp_apply(ctx, f[0][3] == 'a' ? vmadd : vmsub, r); prnum(r);
+      r = sexp_apply(ctx, f[0][3] == 'a' ? vmadd : f[0][3] == 's' ? vmsub : vmmul, r); prnum(r);
     } else if ((!strcmp(f[0], "num_quotient") || !strcmp(f[0], "num_remainder")) && nf == 3) {
       a = mknum(ctx, f[1]); b = mknum(ctx, f[2]);
       r = f[0][4] == 'q' ? sexp_quotient(ctx, a, b) : sexp_remainder(ctx, a, b);
@@ -200,6 +204,14 @@ int main(int argc, char **argv) {
     } else if (!strcmp(f[0], "bignum_sqrt") && nf == 2) {
       a = mkbig(ctx, "1", f[1]);
       { sexp rem = SEXP_VOID; r = sexp_bignum_sqrt(ctx, a, &rem); prnum(r); printf(" "); prnum(rem); }
+    } else if ((!strcmp(f[0], "ratio_round") || !strcmp(f[0], "ratio_trunc") || !strcmp(f[0], "ratio_floor") || !strcmp(f[0], "ratio_ceiling")) && nf == 3) {
+      a = mknum(ctx, f[1]); b = mknum(ctx, f[2]); ra = sexp_make_ratio(ctx, a, b);
+      r = f[0][6] == 'r' ? sexp_ratio_round(ctx, ra) : f[0][6] == 't' ? sexp_ratio_trunc(ctx, ra) : f[0][6] == 'f' ? sexp_ratio_floor(ctx, ra) : sexp_ratio_ceiling(ctx, ra);
+      prnum(r);
+    } else if (!strcmp(f[0], "ratio_sub") && nf == 5) {
+      a = mknum(ctx, f[1]); b = mknum(ctx, f[2]); ra = sexp_make_ratio(ctx, a, b);
+      a = mknum(ctx, f[3]); b = mknum(ctx, f[4]); rb = sexp_make_ratio(ctx, a, b);
+      r = sexp_sub(ctx, ra, rb); prrat(r);
     } else if (!strcmp(f[0], "ratio_normalize") && nf == 3) {
       a = mknum(ctx, f[1]); b = mknum(ctx, f[2]);
       r = sexp_make_ratio(ctx, a, b);
